@@ -18,6 +18,22 @@ def parseEntry (tok : String) : Option (String × Addr) :=
   | [n, v] => (parseNat v).map (fun x => (n, BitVec.ofNat 64 x))
   | _ => none
 
+/-- ELF symbol: `name@value` (has an address) or `name@value!` (undefined / file / section / TLS entry) -/
+def parseSym (tok : String) : Option (String × Addr × Bool) :=
+  match tok.splitOn "@" with
+  | [n, v] =>
+    if v.endsWith "!" then (parseNat (String.ofList (v.toList.dropLast))).map (fun x => (n, BitVec.ofNat 64 x, false))
+    else (parseNat v).map (fun x => (n, BitVec.ofNat 64 x, true))
+  | _ => none
+
+def parseSyms : Nat → List String → Option (List (String × Addr × Bool) × List String)
+  | 0, rest => some ([], rest)
+  | n + 1, tok :: rest => do
+    let e ← parseSym tok
+    let (es, rest') ← parseSyms n rest
+    pure (e :: es, rest')
+  | _ + 1, [] => none
+
 def parseEntries : Nat → List String → Option (List (String × Addr) × List String)
   | 0, rest => some ([], rest)
   | n + 1, tok :: rest => do
@@ -101,7 +117,7 @@ def parseHist (toks : List String) : Option (Env String × List Q) := do
         | "syms=-" => some (none, rest)
         | p => do
           let n ← (stripPrefix? "syms=" p).bind String.toNat?
-          let (es, rest') ← parseEntries n rest
+          let (es, rest') ← parseSyms n rest
           pure (some es, rest')
       match rest with
       | q :: qs =>
